@@ -40,6 +40,7 @@ def main(argv):
     failing = []
     k_pairs = []
     dead_dropped = 0
+    hyp = []          # (kind, prog, cfg, rejected, dead) for the hypothesis check of the theorem
     for pi in range(npool):
         base, feats = gen_prog.gen_program(ck.rng, size=ck.rng.randrange(3, 9))
         inj = inject.all_injections(base)
@@ -54,11 +55,13 @@ def main(argv):
             rej, cls, text = rejected(ol, prog, cfg)
             ck.case(f"{kind}|{pos}|{prog}")
             ck.count("kind:" + kind)
+            dead = inject.is_dead_position(prog, injected_line(base, prog))
+            hyp.append((kind, prog, cfg, rej, dead))
             if rej:
                 ck.count("rejected:" + cls)
             else:
                 line = injected_line(base, prog)
-                if inject.is_dead_position(prog, line) and any(k["kf"] == "KF-D37" for k in known):
+                if dead and any(k["kf"] == "KF-D37" for k in known):
                     dead_dropped += 1
                     ck.count("attributed_to_KF-D37")
                 else:
@@ -87,6 +90,29 @@ def main(argv):
                 ck.count("K_agree")
             else:
                 k_bad.append((src, cfg, detail))
+    # the hypothesis of C08.reject_at_any_depth (`badModule`) evaluated by the model on every injection:
+    # it must hold for every injection at a live position (otherwise the theorem would not speak about
+    # the property's quantifier), and where it holds the real converter must have raised
+    uncovered = []
+    if b["driver_ok"]:
+        hs = [h for h in hyp if lower_common.analysable(h[1])]
+        for (kind, prog, cfg, rej, dead), (bad, outcome) in zip(hs, lower_common.model_bad([(h[1], (h[2][1], h[2][2])) for h in hs])):
+            if bad is True:
+                ck.count("theorem_hypothesis_holds")
+                if outcome != "err":
+                    ck.broken.append("model: badModule holds but lowerFull returned a tree on " + repr(prog[:300]))
+                if not rej and not any(f[2] == prog for f in failing):
+                    failing.append((kind, 0, prog, cfg, "a tree although the rejection theorem's hypothesis holds"))
+            elif bad is False:
+                if dead:
+                    ck.count("hypothesis_false_dead_position")
+                elif rej:
+                    ck.count("hypothesis_false_but_rejected:" + kind)
+                    uncovered.append((kind, prog))
+            else:
+                ck.count("hypothesis_protocol_error")
+        if len({k for k, _ in uncovered}) and len(uncovered) > 0:
+            ck.count("kinds_outside_hypothesis", len({k for k, _ in uncovered}))
     if k_bad:
         ck.broken.append(f"correspondence K(lowerFull = convert, incl. error class): {len(k_bad)} programs differ, first: {k_bad[0][2][:300]} on {k_bad[0][0][:400]!r}")
     for k in known:
